@@ -74,6 +74,12 @@ func scenC05(r *Run, job *Job) {
 		}
 	}
 	long := T + 20*time.Second
+	// a history: the generation that serves the second invocation stalls at the same point (two timeouts in a row)
+	repeat := profile == "stall" && t.Chance(1, 3)
+	nFaulty := 1
+	if repeat {
+		nFaulty = 2
+	}
 	e.BehavFor = BehavForExts(exts, func(p *Proc, b *Behav) {
 		b.KillLatency = killLat
 		ord := w.GenOrdinal(p.Gen)
@@ -82,7 +88,7 @@ func scenC05(r *Run, job *Job) {
 		} else {
 			b.OnShutdown = extOnShut
 		}
-		if ord != 1 {
+		if ord != 1 && !(repeat && ord == 2) {
 			return
 		}
 		switch profile {
@@ -142,10 +148,15 @@ func scenC05(r *Run, job *Job) {
 			return b
 		}
 	}
-	for i := 0; i < 3; i++ {
+	for i := 0; i < 2+nFaulty; i++ {
 		e.Plan = append(e.Plan, InvSpec{Payload: Tagged(fmt.Sprintf("ev%d", i+1), 20)})
 	}
-	r.Desc = fmt.Sprintf("C05 %s T=%ds point=%s offset=%v who=%d exts=%v rtOnTerm=%q extOnShutdown=%q killLat=%s reorder=%d/%d", profile, timeoutSec, point, offset, sweepWho, exts, rtOnTerm, extOnShut, killLat, r.ReorderNum, r.ReorderDen)
+	pointDesc := point
+	if repeat {
+		pointDesc += "(twice)"
+		e.Bound += time.Duration(timeoutSec+16) * time.Second
+	}
+	r.Desc = fmt.Sprintf("C05 %s T=%ds point=%s offset=%v who=%d exts=%v rtOnTerm=%q extOnShutdown=%q killLat=%s reorder=%d/%d", profile, timeoutSec, pointDesc, offset, sweepWho, exts, rtOnTerm, extOnShut, killLat, r.ReorderNum, r.ReorderDen)
 	r.Logf("%s", r.Desc)
 	e.Stuck = func() {
 		for _, inv := range w.Invokes {
@@ -156,10 +167,10 @@ func scenC05(r *Run, job *Job) {
 	e.Run()
 	r.ReleaseHolds()
 	r.Settle()
-	c05Judge(r, w, e, T, offset, profile, sweepWho, maxKillLat, firstExt != "")
+	c05Judge(r, w, e, T, offset, profile, sweepWho, maxKillLat, firstExt != "", nFaulty)
 }
 
-func c05Judge(r *Run, w *World, e *Engine, T, offset time.Duration, profile string, sweepWho int, killLat time.Duration, hasExt bool) {
+func c05Judge(r *Run, w *World, e *Engine, T, offset time.Duration, profile string, sweepWho int, killLat time.Duration, hasExt bool, nFaulty int) {
 	timeoutBody := []byte(timeoutText(w.Cfg.TimeoutSec))
 	inj := time.Duration(r.Stats.InjectedDelayNs)
 	for i, inv := range w.Invokes {
@@ -167,8 +178,8 @@ func c05Judge(r *Run, w *World, e *Engine, T, offset time.Duration, profile stri
 		st, body := inv.Call.Status, inv.Call.Body
 		isTimeout := st == 200 && bytes.Equal(body, timeoutBody)
 		isResp := st == 200 && inv.AnswerKind == "response" && bytes.Equal(body, inv.Answered)
-		if i == 0 {
-			r.Check(isTimeout || isResp, "C05.outcome", "invocation 1 must end in its response or the timeout text, got %d %s (runtime answered: %q)", st, summarize(body), inv.AnswerKind)
+		if i < nFaulty {
+			r.Check(isTimeout || isResp, "C05.outcome", "invocation %d must end in its response or the timeout text, got %d %s (runtime answered: %q)", inv.N, st, summarize(body), inv.AnswerKind)
 			if isTimeout {
 				r.NonTriv = true
 				r.Probe("timeout-fired")
@@ -178,7 +189,7 @@ func c05Judge(r *Run, w *World, e *Engine, T, offset time.Duration, profile stri
 				r.Check(el >= T, "C05.early-timeout", "timeout outcome after %s, before the timeout %s", el, T)
 				// teardown before the answer
 				for _, p := range w.Sup.All() {
-					if p.ExecStep < inv.Call.EndStep && w.GenOrdinal(p.Gen) == 1 {
+					if p.ExecStep < inv.Call.EndStep && w.GenOrdinal(p.Gen) == i+1 {
 						r.Check(!p.Alive && p.DeathStep <= inv.Call.EndStep, "C05.teardown", "timeout answered at step %d while %s was still alive", inv.Call.EndStep, p.Name)
 					}
 				}
@@ -198,7 +209,7 @@ func c05Judge(r *Run, w *World, e *Engine, T, offset time.Duration, profile stri
 		}
 		// later invocations: healthy parties, must succeed on fresh processes if the first timed out
 		r.Check(st == 200 && inv.AnswerKind == "response" && bytes.Equal(body, inv.Answered), "C05.recovery", "invocation %d after the timeout: %d %s (runtime answered %q)", inv.N, st, summarize(body), inv.AnswerKind)
-		first := w.Invokes[0]
+		first := w.Invokes[nFaulty-1]
 		if st0 := first.Call; st0.Status == 200 && bytes.Equal(st0.Body, timeoutBody) {
 			gen := genServing(w, e, inv)
 			for _, p := range w.Sup.All() {
